@@ -55,3 +55,6 @@ IO/Lex.vos IO/Lex.vok IO/Lex.required_vos: IO/Lex.v
 IO/Bas.vo IO/Bas.glob IO/Bas.v.beautified IO/Bas.required_vo: IO/Bas.v 
 IO/Bas.vio: IO/Bas.v 
 IO/Bas.vos IO/Bas.vok IO/Bas.required_vos: IO/Bas.v 
+IO/Sol.vo IO/Sol.glob IO/Sol.v.beautified IO/Sol.required_vo: IO/Sol.v IO/Num.vo IO/NumSound.vo
+IO/Sol.vio: IO/Sol.v IO/Num.vio IO/NumSound.vio
+IO/Sol.vos IO/Sol.vok IO/Sol.required_vos: IO/Sol.v IO/Num.vos IO/NumSound.vos
